@@ -36,6 +36,8 @@ from calmjs.parse.ruletypes import (
     BlockComment as RuleTypeBlockComment,
 )
 from calmjs.parse.lexers.es5 import PATT_LINE_CONTINUATION
+from calmjs.parse.unicode_chars import COMBINING_MARK
+from calmjs.parse.unicode_chars import CONNECTOR_PUNCTUATION
 
 required_space = re.compile(r'^(?:\w\w|\+\+|\-\-|\w\$|\$\w)$')
 
@@ -52,6 +54,37 @@ def required_space_decimal_dot(before, after):
     # a decimal integer literal followed by the property accessor dot
     # would turn into a single numeric literal: `1 .x` -> `1.x`
     return after == '.' and before.isdigit()
+
+
+# the characters that can be inside an identifier (name) in addition to
+# what \w matches (section 7.6)
+identifier_part = re.compile(
+    r'^(?:[\w$\u200c\u200d]|' + COMBINING_MARK + '|' +
+    CONNECTOR_PUNCTUATION + ')$')
+
+
+def required_space_between(before, after):
+    """
+    Whether the fragments before and after would be read differently
+    if they were joined without a space in between.
+    """
+
+    last, first = before[-1:], after[:1]
+    if required_space.match(last + first):
+        return True
+    if required_space_decimal_dot(before, after):
+        return True
+    if identifier_part.match(first):
+        # identifier characters not covered by the simple pattern above
+        # fuse with a preceding identifier character; they would also
+        # become the flags of a preceding regular expression literal
+        if identifier_part.match(last):
+            return True
+        if last == '/' and len(before) > 1:
+            return True
+    # a division followed by a regular expression literal would start
+    # a comment: `a / /re/` -> `a//re/`
+    return last == '/' and first == '/'
 
 
 def rule_handler_noop(*a, **kw):
@@ -181,10 +214,7 @@ def layout_handler_space_optional_pretty(
     if before is None or after is None:
         # nothing.
         return
-    s = before[-1:] + after[:1]
-
-    if (required_space.match(s) or after in assignment_tokens or
-            required_space_decimal_dot(before, after)):
+    if after in assignment_tokens or required_space_between(before, after):
         yield space_imply
         return
 
@@ -193,8 +223,7 @@ def layout_handler_space_minimum(dispatcher, node, before, after, prev):
     if before is None or after is None:
         # nothing.
         return
-    s = before[-1:] + after[:1]
-    if required_space.match(s) or required_space_decimal_dot(before, after):
+    if required_space_between(before, after):
         yield space_imply
 
 
